@@ -6,7 +6,7 @@ CONSTANTS
   Keys = {"k1", "k2"}
   Values = {"a", "b"}
   TTLs = {1, 2}
-  Deltas = {1, 2}
+  Deltas = {1}
   NViews = 2
   PokeTTLs = {1}
   MaxOps = 1000
